@@ -223,6 +223,12 @@ def run(tier):
         for rel in files[0]:
             if rel.endswith("unicode-full.yaml"):
                 first.append((0, rel, "truncated", "All", True))
+        # files that are only reached through an 'include:' (the shared definitions, the SharedRules): who records them for the
+        # up-to-date test is easy to get wrong; with file checking on, a fault after a warm load and a loadable fault repaired by time
+        for rel in files[0]:
+            if rel in ("definitions.yaml", "Braille/definitions.yaml") or "SharedRules" in rel or rel.startswith("Intent/"):
+                first.append((0, rel, "scalar", "All", True))
+                first.append((0, rel, "truncated", "All", False))
         cases = first + rng.sample(cases, 40)
     scripts = []
     # reference sessions (no fault) for each configuration and mode
